@@ -466,7 +466,9 @@ theorem deliver_onAckCount (env : Env) (c : Chain) (now : UInt64) (m : Msg) (k :
       cases ae with
       | relayed _ _ _ _ hevm _ => simp [onAckCount, hevm]
       | acked ackBz _ _ _ _ _ hwhich =>
-        rcases hwhich with ⟨_, _, hevm⟩ | ⟨_, _, _, hevm⟩ <;> simp [onAckCount, hevm]
+        rcases hwhich with ⟨_, _, hevm⟩ | ⟨_, _, _, hevm⟩
+        · cases hcm : cb.committed <;> simp [onAckCount, hevm, hcm]
+        · simp [onAckCount, hevm]
     | acknowledgement packet ack proof h signer o =>
       obtain ⟨a, _, _, hc⟩ := (handle_ack_effect hh).decoded
       rcases hc with ⟨_, _, _, relayer, _, _, _, hevm⟩ | ⟨_, _, _, _, hevm⟩
